@@ -116,7 +116,12 @@ def run(tier):
     from . import parts
     sel = [C('NM', 2, 4, 0, std=s) for s in STDS] + [C('TM', 4, 2, 'std', std=s) for s in ('c++11', 'c++20')] \
         + [C('NM', 2, 4, 0, std='c++20', defines=('GCH_DISABLE_CONCEPTS',))]
-    parts.run_parts(ck, tier, ir_parts=('ir_alloc', 'ir_pair', 'ir_bounds', 'ir_growth', 'ir_noexcept'), cfgs=sel)
+    sel += [C('NM', 2, 4, 'std', std=s) for s in ('c++14', 'c++20', 'c++2b')]
+    # ... and the operation laws of C01 (size, returned position, element placement) and the operator
+    # algebra of C16 under each standard: if every standard meets the same specification on every path,
+    # the standards agree with each other on those results
+    parts.run_parts(ck, tier, ir_parts=('ir_alloc', 'ir_pair', 'ir_bounds', 'ir_growth', 'ir_noexcept', 'ir_laws', 'ir_compare'),
+                    cfgs=sel, rule_filter=lambda part, x: not (part == 'ir_laws' and x.rule == 'R03.7'))
     # R17.2: the type-level tables under every standard (the witness parts generate their
     # per-standard expectations from feature macros)
     if tier == 'thorough':
@@ -134,6 +139,7 @@ def run(tier):
         'element flavour, including the move-only element with a throwing move - is well-formed under -std=c++11/14/17/20/2b with clang++ '
         'and g++ and with -DGCH_DISABLE_CONCEPTS; R17.1\' every function compiled from the header that exists under two standards has the '
         'same static fingerprint (reachable element/allocator/iterator primitives, escaping exception kinds, writes of container words, '
-        'non-throwing) under both; R17.1 the allocation-pairing, paired-update, bounds, growth and noexcept path rules hold on one '
+        'non-throwing) under both; R17.1 the allocation-pairing, paired-update, bounds, growth and noexcept path rules, the operation laws of C01 '
+        '(size, returned position, element placement) and the comparison-operator algebra of C16 hold on one '
         'configuration per standard (every check\'s thorough tier covers the standards for its own rules); R17.2 (thorough) the type-level '
         'grids of C18/C07/C16 under every standard.')
